@@ -58,7 +58,8 @@ func c11Containers(tier string) []c11Container {
 		{"a", "b", "c", "d", "e", "f", "g"},
 		{"é", "b", "ü", "d", "ö", "ß", "ñ"},
 		{"🌍", "a", "👋", "é", "x", "🎉", "か"},
-		{"é", "a", "́", "z", "か", "̈", "y"}, // combining marks are code points of their own
+		{"é", "a", "́", "z", "か", "̈", "y"},                    // combining marks are code points of their own
+		{"\ufffd", "a", "\ufffd", "\ufffd", "b", "é", "\ufffd"}, // U+FFFD is an ordinary character of a string
 		{"€", "\\t", "\\\"", " ", "\\\\", "\\n", "'"},
 	}
 	for n := 0; n <= maxLen; n++ {
@@ -106,22 +107,22 @@ func c11Containers(tier string) []c11Container {
 	return out
 }
 
-var c11Forms = []string{"read", "read-group", "read-call", "read-any", "read-sliced", "store", "store-nested", "slice", "slice-copy", "read-reassigned", "runtime-string"}
+var c11Forms = []string{"read", "read-group", "read-call", "read-any", "read-sliced", "store", "store-nested", "slice", "slice-copy", "read-reassigned", "runtime-string", "range", "concat-after-index"}
 
 func init() {
 	core.Register(&core.Check{
 		ID:    "C11",
 		Level: "exploration",
-		Rule: "exhaustive grid: containers (arrays of num/string/nested/any and strings over ASCII, 2-, 3-, 4-byte characters, combining marks) of length 0..3 (quick) / 0..7 (thorough) x access forms x every index in [-n-2, n+2] plus fractional, huge, NaN, +-Inf, -0 x (for slices) all ordered pairs and missing bounds; one tiny program per access; " +
+		Rule: "exhaustive grid: containers (arrays of num/string/nested/any and strings over ASCII, 2-, 3-, 4-byte characters, combining marks) of length 0..3 (quick) / 0..7 (thorough) x access forms (reads through variable, group, call, any, slice, after reassignment; stores; slices; loops over the container and over indexed loop variables; reads on strings concatenated from an indexed string; errmsg before and after the runtime rewrites it) x every index in [-n-2, n+2] plus fractional, huge, NaN, +-Inf, -0 x (for slices) all ordered pairs and missing bounds; one tiny program per access; " +
 			"distinct = distinct (container, form, index/bounds) triples; non-trivial = all of them (each is its own execution)",
 		Assumptions: []string{
 			"an index of magnitude >= 2^63 may panic as 'out of bounds' or as 'not an integer' (the law does not say which; Go's float-to-int conversion is unspecified there)",
 			"when several bounds of a slice are bad, any of the applicable documented panic kinds is accepted",
 		},
-		NumCases: func(tier string) int { return len(c11Containers(tier)) * len(c11Forms) },
+		NumCases:   func(tier string) int { return len(c11Containers(tier)) * len(c11Forms) },
 		Exhaustive: func(tier string) bool { return true },
-		Run:       c11Run,
-		MinEvents: []string{"accesses", "reads_ok", "panics_checked", "slices_ok"},
+		Run:        c11Run,
+		MinEvents:  []string{"accesses", "reads_ok", "panics_checked", "slices_ok"},
 	})
 }
 
@@ -206,10 +207,58 @@ func c11Run(c *core.Ctx, i int) {
 		c.Violation("wrong-outcome:"+form, fmt.Sprintf("%s: expected an Evy panic of kind %v, got %s %q %s with output %v", what, kinds, o.Class, o.ErrText, o.GoPanic, o.Events), src, nil)
 	}
 	switch form {
-	case "read-reassigned", "runtime-string":
+	case "read-reassigned", "runtime-string", "concat-after-index":
 		if ct.kind != "string" {
 			return
 		}
+	}
+	switch form {
+	case "range":
+		// a loop over the container visits exactly its n elements in order; for strings the loop
+		// variable is a one-character string that can itself be indexed, sliced and measured
+		body := "for el := range s\n    print el\nend\nprint \"end\"\n"
+		want := []string{}
+		for _, e := range ct.elems {
+			want = append(want, "print "+strconv.Quote(e+"\n"))
+		}
+		if ct.kind == "string" {
+			body = "for el := range s\n    print el el[0] el[-1] el[:1] el[1:] (len el)\nend\nprint \"end\"\n"
+			want = want[:0]
+			for _, e := range ct.elems {
+				want = append(want, "print "+strconv.Quote(e+" "+e+" "+e+" "+e+"  1\n"))
+			}
+		}
+		want = append(want, "print "+strconv.Quote("end\n"))
+		c.Distinct(ct.lit + form)
+		o := run(body)
+		if o.Class != "ok" || strings.Join(o.Events, "|") != strings.Join(want, "|") {
+			c.Violation("wrong-range", fmt.Sprintf("for el := range s with n=%d: expected %v, got %s %q %v", n, want, o.Class, o.ErrText, o.Events), c11Prog(ct, body), nil)
+		} else {
+			c.Event("reads_ok", 1)
+		}
+		return
+	case "concat-after-index":
+		// strings built from an already indexed string are independent values
+		pre := ""
+		if n > 0 {
+			pre = "t0 := s[0] + s[-1] + s[:1]\nprint ((len t0) > 0)\n"
+		}
+		body := pre + "ca := s + \"X\"\ncb := s + \"Yé\"\ncc := ca + \"Z\"\ncd := ca + \"W🌍\"\nprint ca[n] cb[n] ca[-1] cb[-1] ca[n:] cb[n:] cc[n+1] cd[n+1] cc[-1] cd[-1] (len ca) (len cb) (len cc) (len cd)\nprint ca cb cc cd\n"
+		full := strings.Join(ct.elems, "")
+		want := []string{}
+		if n > 0 {
+			want = append(want, "print "+strconv.Quote("true\n"))
+		}
+		want = append(want, "print "+strconv.Quote(fmt.Sprintf("X Y X é X Yé Z W Z 🌍 %d %d %d %d\n", n+1, n+2, n+2, n+3)),
+			"print "+strconv.Quote(full+"X "+full+"Yé "+full+"XZ "+full+"XW🌍\n"))
+		c.Distinct(ct.lit + form)
+		o := run(body)
+		if o.Class != "ok" || strings.Join(o.Events, "|") != strings.Join(want, "|") {
+			c.Violation("wrong-concat-read", fmt.Sprintf("reads on strings concatenated from an indexed string, n=%d: expected %v, got %s %q %v", n, want, o.Class, o.ErrText, o.Events), c11Prog(ct, body), nil)
+		} else {
+			c.Event("reads_ok", 1)
+		}
+		return
 	}
 	switch form {
 	case "runtime-string":
